@@ -43,7 +43,7 @@ FUNCTIONS = ['Algebra.__post_init__', 'Algebra._prepare_signs', '_compute_sign (
 ASSUMPTIONS = ['signature entries range over {-1,0,1} (solver variables); bases, start indices, spellings and dimensions are enumerated',
                'generator names are single hex digits (kingdon\'s own restriction)',
                'reference closed form sign(I,J) = (-1)^{sum_{j in J} popcount(I>>(j+1))} * prod_{k in I&J} s_k, itself proved Clifford in (c)']
-BOUNDS = {'quick': 'default bases d<=7 x start_index {0,1,2} all pairs (d=8: 6000 sampled pairs), custom bases exhaustive d<=2 + 40 sampled d=3..5 + named algebras (start index inferred from the labels); triples d<=3; (c) width 6; (d) all (p,q,r) d<=4, all explicit orderings d<=3, shifted-label custom bases, graded / cse=False configurations; 34 algebras checked after a twin (same (p,q,r) in another ordering, default vs custom basis, other start index; d up to 8) was built and used in the same process; algebras checked after a twin algebra was used in the same process; start indices that give a generator the label \'e\'; custom bases with hexadecimal letter labels and the zero-dimensional one',
+BOUNDS = {'quick': 'default bases d<=7 x start_index {0,1,2} all pairs (d=8: 6000 sampled pairs), custom bases exhaustive d<=2 + 40 sampled d=3..5 + named algebras (start index inferred from the labels); triples d<=3; (c) width 6; (d) all (p,q,r) d<=4, all explicit orderings d<=3, shifted-label custom bases, graded / cse=False configurations; 34 algebras checked after a twin (same (p,q,r) in another ordering, default vs custom basis, other start index; d up to 8) was built and used in the same process; algebras checked after a twin algebra was used in the same process; start indices that give a generator the label \'e\'; custom bases with hexadecimal letter labels (also in mixed case) and the zero-dimensional one',
           'thorough': 'd=8 all 65536 pairs, 400 sampled custom bases, triples d<=4, (c) width 8, (d) all (p,q,r) d<=6, orderings d<=4'}
 OUTSIDE = ['d > 8', 'generator names that are not single hex digits', 'signature entries other than -1, 0, 1']
 OPTS = {'rlimit': 400_000_000, 'canary_every': 3}
@@ -126,6 +126,17 @@ def cases(tier, seed):
         default = 0 if pqr[2] == 1 else 1
         si = rng.choice([s_ for s_ in (0, 1, 2, 3, 7, 9, 10, 12) if s_ != default and s_ + d - 1 <= 15])
         basis = pat.random_basis(pqr, rng, start_index=si)
+        out.append(dict(kind='concrete', cfg=dict(p=pqr[0], q=pqr[1], r=pqr[2], basis=basis), products=(d <= 3), expect_start=si))
+    # ... and hexadecimal letter labels in MIXED case (kingdon's blade pattern admits a-f and A-F): 'B' sorts before 'a' as a string
+    for i in range(10 if tier == 'quick' else 60):
+        d = rng.choice((2, 2, 3, 3, 4))
+        pqr = rng.choice([x for x in pat.pqr_all(d) if sum(1 for v in x if v) >= 2] or pat.pqr_all(d))
+        si = rng.choice([s_ for s_ in (8, 9, 10, 11, 12) if s_ + d - 1 <= 15 and s_ + d - 1 >= 11])
+        basis = pat.random_basis(pqr, rng, start_index=si)
+        letters = sorted({ch for b in basis for ch in b[1:] if ch.isalpha()})
+        # upper-case a non-empty proper subset of the letters; in half of the cases every letter but the smallest
+        up = set(letters[1:]) if (i % 2 == 0 or len(letters) < 3) else set(rng.sample(letters, rng.randint(1, len(letters) - 1)))
+        basis = ['e' + ''.join(ch.upper() if ch in up else ch for ch in b[1:]) for b in basis]
         out.append(dict(kind='concrete', cfg=dict(p=pqr[0], q=pqr[1], r=pqr[2], basis=basis), products=(d <= 3), expect_start=si))
     return out
 
